@@ -170,3 +170,127 @@ def storage_check_filters(crate, B=2):
     r = P.finish(ex, res, ["definitely absent with %d closed blobs" % B, "an off-loaded filter says maybe", "empty storage: absent"])
     r.queries, r.solver_s = int(tq), ts
     return r
+
+
+def option_filter_merge(crate):
+    """C10: `impl FilterTrait for Option<T>` (the `bloom: Option<Bloom>` half of a CombinedFilter; None = "unknown, needs an
+    additional check"): checked_add_assign answers true - the promise "every key of `other` is covered by `self` now" - only
+    when both sides are absent or both are present and the inner merge ran and answered true; a present filter merged
+    with an absent one must answer false (the caller then drops the node filter).  contains_fast of an absent filter never
+    answers NotContains."""
+    res = P.ObResult("option_filter_merge")
+    fn = crate.find(r"traits::<impl at src/filter/traits\.rs[^>]*>::checked_add_assign$")
+    fc = crate.find(r"traits::<impl at src/filter/traits\.rs[^>]*>::contains_fast$")
+    res.functions = ["<Option<T> as FilterTrait<K>>::checked_add_assign", "<Option<T> as FilterTrait<K>>::contains_fast"]
+    res.bounds = "loop-free; both discriminants symbolic; inner T::checked_add_assign / contains_fast arbitrary"
+    from . import mirparse as MP
+    MP.parse_body(fn); MP.parse_body(fc)
+
+    def h_inner(ex_, st_, frame, t, nf, args, dty):
+        v = z3.Bool(fresh_name("inner_merge_ok"))
+        st_.events.append(("inner_merge", nf, args, Sym(v, "bool")))
+        return [(Sym(v, "bool"), None)]
+
+    def h_inner_c(ex_, st_, frame, t, nf, args, dty):
+        r = ex_.fresh(dty, st_, "inner_contains")
+        st_.events.append(("inner_contains", nf, args, r))
+        return [(r, None)]
+    ex = P.mk_executor(crate, cap=1, loop_bound=2, inline=[],
+                       extra_summaries=[(r"^<T as (\S*::)?FilterTrait<K>>::checked_add_assign$", h_inner),
+                                        (r"^<T as (\S*::)?FilterTrait<K>>::contains_fast$", h_inner_c)])
+    st = State()
+    da, db = z3.BitVec("dest_is_some", 64), z3.BitVec("other_is_some", 64)
+    st.pc.append(z3.And(z3.ULE(da, BV64(1)), z3.ULE(db, BV64(1))))
+    a = Obj("std::option::Option<T>"); a.discr = Sym(da, "isize"); a.fields[("Some", 0)] = Obj("T")
+    b = Obj("std::option::Option<T>"); b.discr = Sym(db, "isize"); b.fields[("Some", 0)] = Obj("T")
+    ac, bc = st.new_cell(a), st.new_cell(b)
+    s0 = st.fork()
+    ex.push_frame(st, fn, [Ref(ac, (), True, "&mut std::option::Option<T>"), Ref(bc, (), False, "&std::option::Option<T>")], None, None)
+    outs = ex.run(st)
+    res.paths = len(outs)
+    for o in outs:
+        if o.status in ("infeasible", "unwind"):
+            continue
+        if o.status != "returned":
+            if not P.prove(ex, res, o, z3.BoolVal(False), "no panic (%s)" % o.note):
+                return P.finish(ex, res, [])
+            continue
+        r = o.result.t
+        im = [e for e in o.events if e[0] == "inner_merge"]
+        inner_ok = im[0][3].t if len(im) == 1 else z3.BoolVal(False)
+        both_none = z3.And(da == BV64(0), db == BV64(0))
+        both_some = z3.And(da == BV64(1), db == BV64(1))
+        if not P.prove(ex, res, o, z3.Implies(r, z3.Or(both_none, z3.And(both_some, inner_ok))),
+                       "true only if both absent, or both present and the inner merge succeeded"):
+            return P.finish(ex, res, [])
+        if not P.prove(ex, res, o, z3.Implies(both_none, r), "absent + absent merges"):
+            return P.finish(ex, res, [])
+        if not P.prove(ex, res, o, z3.Implies(z3.And(both_some, inner_ok), r), "present + present follows the inner merge"):
+            return P.finish(ex, res, [])
+        if len(im) > 1:
+            res.status = "violated"; res.detail = "inner merge called %d times" % len(im); return P.finish(ex, res, [])
+        P.cover(ex, res, o, z3.And(da == BV64(1), db == BV64(0), z3.Not(r)), "present + absent refused")
+        P.cover(ex, res, o, z3.And(both_some, r), "present + present merged")
+        P.cover(ex, res, o, z3.And(both_none, r), "absent + absent")
+    FR = crate.enums["FilterResult"]
+    k = s0.new_cell(Obj("K"))
+    ex.push_frame(s0, fc, [Ref(ac, (), False, "&std::option::Option<T>"), Ref(k, (), False, "&K")], None, None)
+    for o in ex.run(s0):
+        if o.status in ("infeasible", "unwind"):
+            continue
+        if o.status != "returned":
+            if not P.prove(ex, res, o, z3.BoolVal(False), "no panic (%s)" % o.note):
+                return P.finish(ex, res, [])
+            continue
+        res.paths += 1
+        d = ex.get_discr(o, o.result).t
+        ic = [e for e in o.events if e[0] == "inner_contains"]
+        if not P.prove(ex, res, o, z3.Implies(da == BV64(0), d == BV64(FR["NeedAdditionalCheck"])), "absent filter: needs an additional check"):
+            return P.finish(ex, res, [])
+        if ic:
+            if not P.prove(ex, res, o, z3.And(da == BV64(1), d == ex.get_discr(o, ic[0][3]).t), "present filter: the inner answer"):
+                return P.finish(ex, res, [])
+        P.cover(ex, res, o, da == BV64(0), "absent probed")
+    return P.finish(ex, res, ["present + absent refused", "present + present merged", "absent + absent", "absent probed"])
+
+
+def combined_filter_merge(crate):
+    """C10: CombinedFilter::checked_add_assign answers true only if the range merge and the bloom merge both ran and both
+    answered true."""
+    res = P.ObResult("combined_filter_merge")
+    fn = crate.find(r"combined::<impl at src/filter/combined\.rs[^>]*>::checked_add_assign$")
+    res.functions = ["<CombinedFilter<K> as FilterTrait<K>>::checked_add_assign"]
+    res.bounds = "loop-free; the two component merges arbitrary"
+    from . import mirparse as MP
+    MP.parse_body(fn)
+
+    def h_part(ex_, st_, frame, t, nf, args, dty):
+        v = z3.Bool(fresh_name("part_ok"))
+        st_.events.append(("part", nf, args, Sym(v, "bool")))
+        return [(Sym(v, "bool"), None)]
+    ex = P.mk_executor(crate, cap=1, loop_bound=2, inline=[],
+                       extra_summaries=[(r"^<.* as (\S*::)?FilterTrait<.*>>::checked_add_assign$", h_part)])
+    st = State()
+    ac, bc = st.new_cell(Obj("filter::combined::CombinedFilter<K>")), st.new_cell(Obj("filter::combined::CombinedFilter<K>"))
+    ex.push_frame(st, fn, [Ref(ac, (), True, "&mut filter::combined::CombinedFilter<K>"), Ref(bc, (), False, "&filter::combined::CombinedFilter<K>")], None, None)
+    outs = ex.run(st)
+    res.paths = len(outs)
+    for o in outs:
+        if o.status in ("infeasible", "unwind"):
+            continue
+        if o.status != "returned":
+            if not P.prove(ex, res, o, z3.BoolVal(False), "no panic (%s)" % o.note):
+                return P.finish(ex, res, [])
+            continue
+        parts = [e for e in o.events if e[0] == "part"]
+        kinds = sorted(("range" if "Range" in e[1] else "bloom" if ("Option" in e[1] or "Bloom" in e[1]) else e[1]) for e in parts)
+        allok = z3.And([e[3].t for e in parts]) if parts else z3.BoolVal(True)
+        r = o.result.t
+        if not P.prove(ex, res, o, z3.Implies(r, z3.And(z3.BoolVal(kinds == ["bloom", "range"]), allok)),
+                       "true only if both the range and the bloom merge ran and succeeded (ran: %s)" % kinds):
+            return P.finish(ex, res, [])
+        if not P.prove(ex, res, o, z3.Implies(z3.And(z3.BoolVal(len(parts) == 2), allok), r), "both succeeded: true"):
+            return P.finish(ex, res, [])
+        P.cover(ex, res, o, r, "merged")
+        P.cover(ex, res, o, z3.Not(r), "refused")
+    return P.finish(ex, res, ["merged", "refused"])
